@@ -1,0 +1,43 @@
+//go:build verif
+
+package exec
+
+// Machine-checked contracts for the govc verification-condition generator
+// (see /verif/DESIGN.md).  This file contains comments only; it is compiled
+// only with the build tag "verif" and changes no behaviour.
+
+// ---------- assumed contracts of the standard library ----------
+
+//@ extern math.IsNaN(x) (r)
+//@   pure
+//@   ensures r == isNaN(x)
+
+//@ extern math.IsInf(x, sign) (r)
+//@   pure
+//@   ensures r == (isInf(x) && (sign == 0 || (sign > 0 && !isNeg(x)) || (sign < 0 && isNeg(x))))
+
+//@ extern math.Floor(x) (r)
+//@   pure
+//@   ensures r == ffloor(x)
+
+//@ extern math.Ceil(x) (r)
+//@   pure
+//@   ensures r == fceil(x)
+
+//@ extern math.NaN() (r)
+//@   pure
+//@   ensures isNaN(r)
+
+//@ extern math.Inf(sign) (r)
+//@   pure
+//@   ensures sign >= 0 ==> r == finf()
+//@   ensures sign < 0 ==> r == fninf()
+
+// ---------- exec/function.go ----------
+
+//@ func getRound(n) (r)
+//@   property C06 C07 C15
+//@   uses num
+//@   ensures isNaN(n) ==> isNaN(r)                         @nan
+//@   ensures isInf(n) ==> r == n                           @inf
+//@   ensures !isNaN(n) && !isInf(n) ==> xpround(n, r)      @nearest
